@@ -1,12 +1,12 @@
 ---- MODULE MC_dev_c14 ----
 EXTENDS ParamSys
-c_Shapes == {<<1, 2>>, <<2, 1, 2>>, <<2, 2, 3>>, <<2, 3>>, <<2>>, <<3, 2>>, <<3>>}
-c_MaxLeaves == 2
+c_Shapes == {<<2, 3>>, <<3, 2>>}
+c_MaxLeaves == 1
 c_MaxNodes == 3
-c_OpSet == {"clamp", "conj", "exp", "had", "index", "kron", "log", "logsoftmax", "mix", "outerprod", "outersum", "polydiff", "polyprod", "rlse", "rprod", "rsum", "sigmoid", "softmax", "softplus", "square", "ssigmoid", "sum"}
+c_LeafKinds == {"tensor"}
+c_OpSet == {"log", "softmax"}
 c_LogLeaves == TRUE
-c_EmitMod == 9
+c_EmitMod == 1
 c_EmitRes == 0
-c_LeafKinds == {"const", "ref", "tensor"}
 c_PosLeaves == FALSE
 ====
